@@ -595,7 +595,9 @@ func TestVFC17History(t *testing.T) {
 				continue
 			}
 			seen[loc.Raw] = true
-			f := w.seed(int64(i+1), loc.Raw, "", true, nil)
+			// some lists are configured but switched off: switching one on
+			// again (set_url with its unchanged URL) reads its source
+			f := w.seed(int64(i+1), loc.Raw, "", rapid.IntRange(0, 2).Draw(t, label+"_disabled") != 0, nil)
 			if rapid.Bool().Draw(t, label+"_white") {
 				allow = append(allow, f)
 			} else {
@@ -632,7 +634,7 @@ func TestVFC17History(t *testing.T) {
 					t.Skip("no list")
 				}
 				loc := w.drawLocation(t, "loc")
-				if rapid.IntRange(0, 5).Draw(t, "same") == 0 {
+				if rapid.IntRange(0, 2).Draw(t, "same") == 0 {
 					loc = w.locs[cur.URL]
 				}
 				st, _ := w.status()
